@@ -1,19 +1,21 @@
 #!/bin/bash
 # Runs seeded changes against checks in a private engine+repo copy (/verif/.build/agents/MATRIX), so /repo stays free.
-# usage: matrix.sh            (all seeded/*; own check + C01 C02 C03 C08)      output: /verif/.build/matrix.log
+# usage: matrix.sh [name-prefix]   (seeded/<prefix>*; own check + the checks tools/manual_detection.json lists for it + $EXTRA)
+# output: appended to /verif/.build/matrix.log (remove it first for a fresh table)
 A=/verif/.build/agents/MATRIX
 cd $A/engine && cargo build --release -q 2>&1 | tail -3
 export CARGO_NET_OFFLINE=true RUST_BACKTRACE=0 VERIF_DIR=$A/out VERIF_REPO=$A/repo VERIF_SCRATCH=$A/scratch VERIF_REAL_BIN=$A/bin-target/release/customasm
-cp /verif/known_findings.json $A/out/
+cp /verif/known_findings.json $A/out/; ln -sfn /verif/pyref $A/out/pyref
 build() { (cd $A/engine && cargo build --release -q 2>&1 | grep -E "^error" | head -3); (cd $A/repo && CARGO_PROFILE_RELEASE_OPT_LEVEL=2 CARGO_PROFILE_RELEASE_OVERFLOW_CHECKS=true CARGO_PROFILE_RELEASE_DEBUG_ASSERTIONS=true CARGO_TARGET_DIR=$A/bin-target cargo build --release --offline -q --bin customasm 2>&1 | grep -E "^error" | head -3); }
-for d in /verif/seeded/*/; do
+for d in /verif/seeded/${1:-}*/; do
   m=$(basename $d); own=${m%-*}
   git -C $A/repo checkout -q -- . 
   if ! git -C $A/repo apply --check $d/patch.diff 2>/dev/null; then echo "$m: PATCH DOES NOT APPLY to current HEAD"; continue; fi
   git -C $A/repo apply $d/patch.diff
   build
   res=""
-  for id in $own $(for x in C01 C02 C03 C08; do [ "$x" != "$own" ] && echo $x; done) ${EXTRA:-}; do
+  others=$(python3 -c "import json,sys; d=json.load(open('/verif/tools/manual_detection.json')); print(' '.join(x for x in d.get(sys.argv[1],[]) if x!=sys.argv[2]))" $m $own)
+  for id in $own $others ${EXTRA:-}; do
     out=$(cd $A/out && timeout 600 $A/target/release/cav $id 2>&1); code=$?
     keys=$(echo "$out" | grep -o "violations with key \[[^]]*\]" | sed 's/violations with key //' | tr '\n' ' ' | cut -c1-200)
     res="$res $id=$code"
